@@ -6,6 +6,7 @@ SOURCES = {
     "gci": "int", "gcd": "double", "gcb": "bool", "gcs": "string", "gcv": "vector", "gcm": "map", "gco": "obj",
     "cvi": "int", "cvs": "string", "cvv": "vector", "cvo": "obj",
     "cri": "int", "crs": "string", "crv": "vector", "cro": "obj", "cpo": "obj", "spo": "obj",
+    "cdr": "der", "cdp": "der", "dsp": "der", "gcder": "der", "ret_cder()": "der",
     "ret_ci()": "int", "ret_cs()": "string", "ret_co()": "obj", "ret_cv()": "vector",
     "5": "int", "(1 + 2)": "int", "2.5": "double", "true": "bool", "!false": "bool", "\"lit\"": "string", "[1, 2]": "tmpvector",
 }
@@ -20,6 +21,7 @@ MUTATORS = {
     "map": ["{a}[\"a\"] = 9", "{a}[\"k\"] = 9", "{a}.clear()", "{a}.erase(\"a\")", "{a}[\"a\"] += 1", "{a} := [\"z\": 1]", "mut_m({a})", "{a}.at(\"a\") = 9"],
     "obj": ["{a}.set(9)", "{a}.inc()", "{a}.v = 9", "{a}.v += 1", "{a} = Obj(9)", "{a} := Obj(9)", "mut_o({a})", "mut_op({a})", "mut_osp({a})", "++{a}.v"],
 }
+MUTATORS["der"] = ["{a}.pset(9)", "{a}.pv = 9", "{a}.pv += 1", "mut_pb({a})", "mut_pbp({a})", "mut_pd({a})", "{a} = PDer(9)", "{a} := PDer(9)", "++{a}.pv"]
 MUTATORS["tmpvector"] = MUTATORS["vector"]
 
 # routes: how the attacker gets hold of the source.  alias=True means the handle must still be the const object itself.
